@@ -1,0 +1,31 @@
+//! Verification hooks (only compiled with the cargo feature `verif`).
+//!
+//! A thread-local recorder for schedule snapshots. Recording is a no-op unless `enable()` was
+//! called on the same thread, so a binary built with the feature behaves as one built without.
+
+use std::cell::RefCell;
+
+use crate::Schedule;
+
+thread_local! {
+    static RECORDER: RefCell<Option<Vec<(String, Schedule)>>> = const { RefCell::new(None) };
+}
+
+/// Start recording on this thread (drops anything recorded before).
+pub fn enable() {
+    RECORDER.with(|r| *r.borrow_mut() = Some(Vec::new()));
+}
+
+/// Store a snapshot (cheap: schedules are persistent data structures) if recording is enabled.
+pub fn record(label: &str, schedule: &Schedule) {
+    RECORDER.with(|r| {
+        if let Some(snapshots) = r.borrow_mut().as_mut() {
+            snapshots.push((label.to_string(), schedule.clone()));
+        }
+    });
+}
+
+/// Stop recording on this thread and return everything that was recorded.
+pub fn take() -> Vec<(String, Schedule)> {
+    RECORDER.with(|r| r.borrow_mut().take().unwrap_or_default())
+}
